@@ -164,12 +164,12 @@ func (s authIndexer) AlphabetIndex() int { return *s.v }
 
 type authEpoch struct{}
 
-func (authEpoch) SetEpochCounter(uint64)        {}
-func (authEpoch) EpochCounter() uint64          { return 7 }
-func (authEpoch) SetEpochDuration(uint64)       {}
-func (authEpoch) EpochDuration() time.Duration  { return time.Hour }
-func (authEpoch) ResetEpochTimer(uint32) error  { return nil }
-func (authEpoch) Verify(netmap.NodeInfo) error  { return nil }
+func (authEpoch) SetEpochCounter(uint64)       {}
+func (authEpoch) EpochCounter() uint64         { return 7 }
+func (authEpoch) SetEpochDuration(uint64)      {}
+func (authEpoch) EpochDuration() time.Duration { return time.Hour }
+func (authEpoch) ResetEpochTimer(uint32) error { return nil }
+func (authEpoch) Verify(netmap.NodeInfo) error { return nil }
 
 func authContracts(n int) []util.Uint160 {
 	var cs []util.Uint160
